@@ -233,4 +233,19 @@ def handleRuns (line : String) : String :=
     | _ => "bad"
   | _ => "bad"
 
+/-- `crash SPEC MODEL CODE => halt|error|running|hostcrash|died`: a generated program on a real memory model, run in a
+    child process of the harness; the simulated program may halt, end with an error or keep running — the host
+    process must survive -/
+def handleCrash (line : String) : String :=
+  match line.splitOn " => " with
+  | [req, res] =>
+    match words req with
+    | [_, spec, model, code] =>
+      let r := res.trimAscii.toString
+      if r == "died" || r == "hostcrash" then s!"agree | VIOL C11:hostcrash:{r}:{spec}:{model}:{code} | crash.{r}"
+      else if r == "halt" || r == "error" || r == "running" then s!"agree | specok | crash.{r}"
+      else "bad"
+    | _ => "bad"
+  | _ => "bad"
+
 end Driver
